@@ -1485,6 +1485,8 @@ class PX:
                 return v
             if attr in ("_replace", "_asdict"):
                 return _PyMethod(b, attr)
+        if isinstance(b, tuple) and attr in getattr(type(b), "_fields", ()):
+            return getattr(b, attr)  # a field of a (library) named tuple, e.g. urllib.parse.SplitResult.scheme
         if isinstance(b, (list, dict, set, frozenset, tuple, str, bytes, bytearray, int, float)) or b is None:
             if not hasattr(b, attr):
                 raise Exc("AttributeError", (f"{type(b).__name__!r} object has no attribute {attr!r}",), origin=_text(e) if e is not None else attr)
@@ -2129,7 +2131,8 @@ class PX:
             self.emit("call", text, args, kw, node=node, frame=fr, extra=o)
             return o
         if isinstance(fval, Partial):
-            return self.do_call(fval.f, text, list(fval.args) + list(args), {**fval.kwargs, **kw}, fr, node, awaited)
+            ptext = fval.text if getattr(fval, "text", None) and fval.text.startswith("self.") and not text.startswith("self.") else text
+            return self.do_call(fval.f, ptext, list(fval.args) + list(args), {**fval.kwargs, **kw}, fr, node, awaited)
         if isinstance(fval, _PyMethod):
             if isinstance(fval.obj, _ExitStack):
                 return self.exit_stack_method(fval.obj, fval.name, text, args, kw, fr, node)
@@ -2151,7 +2154,8 @@ class PX:
         if isinstance(fval, TypeRef) and fval.name.startswith("builtins."):
             return self.builtin(fval.short, text, args, kw, fr, node)
         if isinstance(fval, TypeRef) and fval.name in ("functools.partial",):
-            return Partial(args[0], args[1:], kw)
+            ptxt = _text(node.args[0]) if isinstance(node, ast.Call) and node.args and not isinstance(node.args[0], ast.Starred) else None
+            return Partial(args[0], args[1:], kw, ptxt)
         if isinstance(fval, TypeRef) and fval.name.startswith("re.") and not any(isinstance(a, (Sym, Obj)) or _has_sym(a) for a in list(args) + list(kw.values())):
             import re as _real_re
 
